@@ -192,6 +192,75 @@ def run(tier, res, force_search=False):
             oracle(case, deb, obs, hist, fut, rs, problems)
             res.count(("real", name, nx, ny, To, Th, Tf, str(np.dtype(dtype))), True, sample=case if rep == 0 and name == "QuantileMapping" else None)
 
+    # ---- kwargs reach apply_location in every branch (both probes, serial and parallel) — always, not by chance
+    for kind in ("deb", "dc"):
+        nprs = np.random.RandomState(rng.randint(0, 2**31 - 1))
+        nx, ny = rng.choice([(2, 2), (1, 3), (2, 3)])
+        To, Th, Tf = rng.randint(1, 6), rng.randint(1, 6), rng.randint(1, 6)
+        obs, hist, fut = (G.rand_data(nprs, T, nx, ny, np.float64) for T in (To, Th, Tf))
+        kw = {"shift": rng.randint(1, 9)}
+        case = dict(kind=kind, what="probe-kwargs/" + kind, nx=nx, ny=ny, To=To, Th=Th, Tf=Tf, dtype="f8", marker=None, failsafe=False, kwargs=kw, nprocs=[1, 2])
+        deb = G.make(kind)
+        rs = [("serial+kw", G.run_apply(deb, obs, hist, fut, **kw))] + [(f"parallel/{p}+kw", G.run_apply(deb, obs, hist, fut, parallel=True, nproc=p, **kw)) for p in (1, 2)]
+        oracle(case, deb, obs, hist, fut, rs, problems, kw)
+        res.count(("kwargs", kind, nx, ny, To, Th, Tf), True)
+
+    # ---- running-window debiasers: the time arrays travel through apply(**kwargs); dates do not start on 1 January
+    more = G.more_debiasers()
+    import datetime
+
+    for name in ("rw/DeltaChange", "rw/LinearScaling"):
+        for rep in range(1 if tier == "quick" else 3):
+            nprs = np.random.RandomState(rng.randint(0, 2**31 - 1))
+            nx, ny = rng.choice([(1, 2), (2, 2), (2, 1)])
+            lengths = [rng.randint(380, 500) for _ in range(3)]
+            starts = [(datetime.date(rng.randint(1970, 2050), 1, 1) + datetime.timedelta(days=rng.randint(20, 340))).isoformat() for _ in range(3)]
+            obs, hist, fut = (G.tas_grid(nprs, T, nx, ny, m) + 8 * np.sin(np.arange(T) / 58.0)[:, None, None] for T, m in zip(lengths, (283, 285, 287)))
+            kw = G.time_kwargs(starts, lengths)
+            deb = more[name]()
+            case = dict(kind="dc" if "DeltaChange" in name else "deb", what="real/" + name, nx=nx, ny=ny, To=lengths[0], Th=lengths[1], Tf=lengths[2],
+                        dtype="float64", starts=starts, seed=C.seed(), rep=rep, nprocs=[2])
+            rs = [("serial+time", G.run_apply(deb, obs, hist, fut, **kw)), ("parallel/2+time", G.run_apply(deb, obs, hist, fut, parallel=True, nproc=2, **kw))]
+            oracle(case, deb, obs, hist, fut, rs, problems, kw)
+            # sensitivity of this case: without the time arrays (dates inferred from 1 January) the result is a different one
+            r0 = G.run_apply(deb, obs, hist, fut)
+            sensitive = rs[0][1][0] == "ok" and r0[0] == "ok" and not G.same(rs[0][1][1], r0[1])
+            res.count(("time-kwargs", name, nx, ny, tuple(starts), tuple(lengths)), sensitive, sample=case if rep == 0 and "Delta" in name else None)
+            if not sensitive:
+                res.notes.append(f"{name}: case with starts {starts} does not depend on the time arrays")
+
+    # ---- precipitation debiasers whose fit runs an optimiser / hurdle model: a degenerate (all-dry) cell is processed first;
+    #      cell alone = in grid = in the grid with a different predecessor = parallel, bitwise
+    # (QuantileDeltaMapping pr uses only fit + ppf of the left-censored gamma model; the hurdle / censored *cdf* of the other pr debiasers draws
+    #  from numpy's global generator, so they are not deterministic configurations and are not compared here)
+    pr_shapes = [(1, 2), (2, 2)] if tier == "quick" else [(1, 2), (2, 2), (1, 3), (3, 1), (2, 3)]
+    for nx, ny in pr_shapes:
+        name = "pr/QuantileDeltaMapping"
+        nprs = np.random.RandomState(rng.randint(0, 2**31 - 1))
+        To, Th, Tf = (rng.randint(150, 260) for _ in range(3))
+        obs, hist, fut = G.pr_grid(nprs, To, nx, ny, 0.8, 6), G.pr_grid(nprs, Th, nx, ny, 0.9, 8), G.pr_grid(nprs, Tf, nx, ny, 0.9, 10)
+        deb = more[name]()
+        variants = [("wet-first", obs, hist)]
+        o2, h2 = obs.copy(), hist.copy()
+        o2[:, 0, 0] = 0.0
+        h2[:, 0, 0] = 0.0
+        variants.append(("dry-first", o2, h2))
+        cols = {}
+        for vname, o, h in variants:
+            case = dict(kind="deb", what="real/" + name, variant=vname, nx=nx, ny=ny, To=To, Th=Th, Tf=Tf, dtype="float64", seed=C.seed(), nprocs=[2])
+            _, errs = G.stacked(deb, o, h, fut, Tf, fut.dtype)
+            if errs:  # the degenerate cell is rejected by this debiaser: not an instance (C13 covers failures)
+                res.notes.append(f"{name}/{vname}: cell {sorted(errs)[0]} raises {type(errs[sorted(errs)[0]]).__name__} — variant skipped")
+                continue
+            rs = [("serial", G.run_apply(deb, o, h, fut)), ("parallel/2", G.run_apply(deb, o, h, fut, parallel=True, nproc=2))]
+            oracle(case, deb, o, h, fut, rs, problems)
+            res.count(("pr", name, vname, nx, ny, To, Th, Tf), True, sample=case if vname == "dry-first" and "Delta" in name else None)
+            if rs[0][1][0] == "ok":
+                cols[vname] = rs[0][1][1][:, -1, -1]
+        if len(cols) == 2 and not np.array_equal(cols["wet-first"], cols["dry-first"], equal_nan=True):
+            problems.append((f"{name}: the column of the unchanged last cell differs when only the first cell's data changes (wet -> all-dry)",
+                             {**case, "variant": "wet-first vs dry-first", **G.pack(obs, hist, fut), **G.pack(o2, h2, fut, "other_"), "cell": [nx - 1, ny - 1]}))
+
     res.extra["start_method"] = G.start_method()
     # ---- verdict
     seen = set()
@@ -221,6 +290,8 @@ def replay(data):
     obs, hist, fut = G.unpack(fi)
     deb = G.debiaser_for(fi)
     kw = fi.get("kwargs") or {}
+    if fi.get("starts"):
+        kw = G.time_kwargs(fi["starts"], [obs.shape[0], hist.shape[0], fut.shape[0]])
     fs = bool(fi.get("failsafe", False))
     results = [("serial", G.run_apply(deb, obs, hist, fut, failsafe=fs, **kw))]
     for p in fi.get("nprocs") or [2]:
